@@ -208,7 +208,16 @@ def gen_c19(rnd, sid, method):
     return "\n".join([hdr(sid, rnd, method, extra)] + L + ["X"]) + "\n"
 
 
+def _handoff(unreg):
+    # two exclusive interests; the signal arrives while the loop is inside a callback, which then
+    # drops one of them before it could be called: the other one must be called instead
+    return ("sigsim=1 maxcb=300", ["O sig 1", "O sig 2", "O tk 1", "O tm 1", "S sig_reg 1 10 1", "S sig_reg 2 10 1", "S tk_reg 1",
+                                   "R tk 1 0 1 raise 10 0", "R tk 1 0 1 sig_unreg %d" % unreg,
+                                   "S tm_reg 1 1 5 0", "R tm 1 0 1 sig_unreg 1", "R tm 1 0 1 sig_unreg 2"])
+
+
 SMALL = {
+    "C10": {"excl-handoff-1": _handoff(1), "excl-handoff-2": _handoff(2)},
     "C11": {
         # thread 1's child dies; thread 1 signals it through the helper while the main thread, which receives
         # SIGCHLD, reaps it: the helper must look at the interest under the lock
